@@ -32,6 +32,9 @@ func ParseStages(value string) ([]Stage, error) {
 		if err != nil {
 			return nil, fmt.Errorf("unable to parse target %s in stage %d: %s", stageElement[1], i, stageElements)
 		}
+		if target < 0 {
+			return nil, fmt.Errorf("negative target %d in stage %d: %s", target, i, stageElements)
+		}
 
 		stages[i] = Stage{
 			EndTarget: target,
